@@ -157,4 +157,43 @@ theorem sweepGo_false_of_dup (fl : Flags) (hf : fl.txVerdictPropagated = true) (
   | false => rfl
   | true => exact absurd (sweepGo_propagated fl hf cx u txs seen h).2.1 hd
 
+/-! ## the flag vectors the C01 / C06 theorems quantify over -/
+
+/-- the flag vector measured on the repaired tree: eight defects repaired, three still open -/
+def Flags.measured : Flags :=
+  { Flags.fixed with inputLocationSigned := false, windowChecked := false, verifyDropsPrivilegedTypes := false }
+
+/-- the eight repairs the `*_repaired` theorems need; `inputLocationSigned`, `windowChecked` and
+    `verifyDropsPrivilegedTypes` are left arbitrary -/
+structure Repaired8 (fl : Flags) : Prop where
+  txVerdictPropagated : fl.txVerdictPropagated = true
+  dupInputsDetected : fl.dupInputsDetected = true
+  allInputsOwnedBySigner : fl.allInputsOwnedBySigner = true
+  stakeTypeSigned : fl.stakeTypeSigned = true
+  spvTypeCannotCreateOutputs : fl.spvTypeCannotCreateOutputs = true
+  singleFeeTx : fl.singleFeeTx = true
+  poolRejectsPrivilegedTypes : fl.poolRejectsPrivilegedTypes = true
+  merkleAlwaysCompared : fl.merkleAlwaysCompared = true
+
+theorem Repaired8.fixed : Repaired8 Flags.fixed := ⟨rfl, rfl, rfl, rfl, rfl, rfl, rfl, rfl⟩
+theorem Repaired8.measured : Repaired8 Flags.measured := ⟨rfl, rfl, rfl, rfl, rfl, rfl, rfl, rfl⟩
+
+example : Repaired8 Flags.fixed := Repaired8.fixed
+example : Repaired8 { Flags.fixed with inputLocationSigned := false, windowChecked := false,
+                                       verifyDropsPrivilegedTypes := false } := Repaired8.measured
+
+/-- `Repaired8` holds of exactly the eight vectors that differ from `Flags.fixed` in the three free flags only -/
+theorem repaired8_iff (fl : Flags) : Repaired8 fl ↔
+    ∃ a b c, fl = { Flags.fixed with inputLocationSigned := a, windowChecked := b, verifyDropsPrivilegedTypes := c } := by
+  constructor
+  · intro h
+    obtain ⟨h1, h2, h3, h4, h5, h6, h7, h8⟩ := h
+    cases fl
+    simp only at h1 h2 h3 h4 h5 h6 h7 h8
+    subst h1 h2 h3 h4 h5 h6 h7 h8
+    exact ⟨_, _, _, rfl⟩
+  · rintro ⟨a, b, c, rfl⟩
+    exact ⟨rfl, rfl, rfl, rfl, rfl, rfl, rfl, rfl⟩
+
+
 end Saito.TxV
